@@ -439,28 +439,30 @@ impl Hub {
                 mon.max_signed_view = mon.max_signed_view.max(Some(view));
             }
             v2::ChonkyMsg::ReplicaNewView(nv) => {
-                let maxv = self.inner.lock().unwrap().mons[node].max_signed_view;
-                if maxv.is_some_and(|x| x > view) {
-                    self.violation(
-                        "C03",
-                        "signed_view_decreased",
-                        format!("n{node}.{inc} signs new-view for view {view} after signing for view {}", maxv.unwrap()),
-                    );
-                }
-                if durable.view_number.0 < view {
+                // A new-view is not a vote: it relays the highest certificate the replica holds,
+                // and its view (certificate view + 1) may be ahead of the replica's own view when
+                // a Byzantine timeout vote carried a certificate newer than the view it timed out
+                // in (the replica adopts the certificate without moving).  What must be durable
+                // before it leaves is the state that records it: the certificate.
+                let covered = match &nv.justification {
+                    v2::ProposalJustification::Commit(q) => durable.high_commit_qc.as_ref().is_some_and(|d| d.view().number >= q.view().number),
+                    v2::ProposalJustification::Timeout(q) => durable.high_timeout_qc.as_ref().is_some_and(|d| d.view.number >= q.view.number),
+                };
+                if !covered {
                     self.violation(
                         "C03",
                         "new_view_not_durable",
                         format!(
-                            "n{node}.{inc} sends new-view for view {view} but durable view is {}",
-                            durable.view_number.0
+                            "n{node}.{inc} sends {} but the durable state (view {}, hc {:?}, ht {:?}) does not hold that certificate",
+                            describe(msg),
+                            durable.view_number.0,
+                            durable.high_commit_qc.as_ref().map(|q| q.view().number.0),
+                            durable.high_timeout_qc.as_ref().map(|q| q.view.number.0),
                         ),
                     );
                 }
+                let _ = view;
                 self.on_justification(&nv.justification, &format!("in new-view of n{node}"));
-                let mut i = self.inner.lock().unwrap();
-                let mon = &mut i.mons[node];
-                mon.max_signed_view = mon.max_signed_view.max(Some(view));
             }
             v2::ChonkyMsg::LeaderProposal(p) => {
                 self.on_justification(&p.justification, &format!("in proposal of n{node}"));
